@@ -313,8 +313,21 @@ func (v *queue_[V]) AddValue(value V) {
 func (v *queue_[V]) RemoveAll() {
 	verifLock(&v.mutex_)
 	v.mutex_.Lock()
-	v.available_ = make(chan bool, v.capacity_)
-	v.values_ = List[V](v.GetClass().Notation()).Make()
+	// Discard the values that are available right now.  NOTE: The channel must
+	// not be replaced: other goroutines may be blocked on it, or may already
+	// have claimed a value from it, and a closed queue must remain closed.
+loop:
+	for {
+		select {
+		case _, ok := <-v.available_:
+			if !ok {
+				break loop // The queue is closed and empty.
+			}
+			v.values_.RemoveValue(1)
+		default:
+			break loop // No more values are available.
+		}
+	}
 	verifUnlock(&v.mutex_)
 	v.mutex_.Unlock()
 }
